@@ -20,25 +20,29 @@ def _is_place(x):
         and all(isinstance(p, list) and p and isinstance(p[0], str) for p in x[1])
 
 
-def _remap(x, lmap, file_prefix):
+def _remap(x, lmap, file_prefix, place_hook=None):
     """deep copy of a fact structure with locals renumbered (places and index projections) and spans made absolute"""
     if _is_place(x):
+        if place_hook is not None:
+            hp = place_hook(x)
+            if hp is not None:
+                return hp
         projs = []
         for p in x[1]:
             if p[0] == "i" and len(p) > 1 and isinstance(p[1], int):
-                projs.append(["i", lmap(p[1])] + [_remap(y, lmap, file_prefix) for y in p[2:]])
+                projs.append(["i", lmap(p[1])] + [_remap(y, lmap, file_prefix, place_hook) for y in p[2:]])
             else:
                 projs.append(copy.copy(p))
         return [lmap(x[0]), projs]
     if isinstance(x, list):
-        return [_remap(y, lmap, file_prefix) for y in x]
+        return [_remap(y, lmap, file_prefix, place_hook) for y in x]
     if isinstance(x, dict):
         out = {}
         for k, v in x.items():
             if k == "sp" and isinstance(v, str) and file_prefix and v.count(":") == 1:
                 out[k] = file_prefix + ":" + v
             else:
-                out[k] = _remap(v, lmap, file_prefix)
+                out[k] = _remap(v, lmap, file_prefix, place_hook)
         return out
     return x
 
@@ -143,3 +147,90 @@ def containing(prog, callee_rx, depth=2):
         return r
 
     return lambda caller, callee: callee.crate == caller.crate and has(callee, depth)
+
+
+POLL_RX = r"core::future::future::Future::poll$|Future>::poll$"
+FUT_THROUGH = r"(Pin::<Ptr>::new_unchecked|Pin::<Ptr>::new|IntoFuture>::into_future|::as_mut|DerefMut>::deref_mut|::get_unchecked_mut)$"
+
+
+def inline_async(prog, fn, depth=1, accept=None):
+    """`fn` (a coroutine body) with the bodies of the local `async fn`s it awaits spliced in at the poll: the awaited
+    helper's statements run where the await is, its `return x` becomes `Poll::Ready(x)` of that poll, its own awaits keep
+    their yields. -> mir.Fn (or fn itself)"""
+    import re
+    from . import paths
+    if not fn.coroutine:
+        return fn
+    rec = dict(fn.rec)
+    blocks = copy.deepcopy(fn.rec["blocks"])
+    locals_ = list(fn.rec["locals"])
+    vars_ = dict(fn.rec.get("vars", {}))
+    work = Fn(dict(rec, blocks=blocks, locals=locals_, vars=vars_))
+    inlined = []
+    for bi in range(len(fn.rec["blocks"])):
+        t = blocks[bi]["t"]
+        if t["k"] != "call" or blocks[bi]["cleanup"] or not (re.search(POLL_RX, t.get("decl") or "") or re.search(POLL_RX, t.get("callee") or "")):
+            continue
+        if not t.get("args"):
+            continue
+        root = paths.root_call(work, t["args"][0], through=FUT_THROUGH)
+        thin = prog.fns.get(root.callee or "") if root is not None else None
+        if thin is None or not thin.rec.get("asyncness") or thin.crate != fn.crate:
+            continue
+        try:
+            body = prog.coroutine_body(thin.key)
+        except Exception:
+            continue
+        if body.key == fn.key or (accept is not None and not accept(fn, body)):
+            continue
+        if depth > 1:
+            body = inline_async(prog, body, depth - 1, accept)
+        if len(blocks) + len(body.blocks) > MAX_BLOCKS:
+            continue
+        lbase = len(locals_)
+        bbase = len(blocks)
+        locals_ += list(body.rec["locals"])
+        nup = len(root.args)
+        ubase = len(locals_)
+        locals_ += ["<upvar>"] * nup
+        def lmap(l, lbase=lbase):
+            return 2 if l == 2 else l + lbase          # the resume argument is the caller's
+        def hook(pl, lbase=lbase, ubase=ubase, nup=nup):
+            if pl[0] == 1 and pl[1]:
+                i = 1 if pl[1][0][0] == "d" and len(pl[1]) > 1 else 0
+                pr = pl[1][i]
+                if pr[0] == "f" and isinstance(pr[2], str) and pr[2].startswith("^") and pr[1] < nup:
+                    rest = [copy.copy(x) if x[0] != "i" else ["i", lmap(x[1])] for x in pl[1][i + 1:]]
+                    return [ubase + pr[1], rest]
+            return None
+        prefix = body.file if body.file != fn.file else ""
+        for name, place in body.rec.get("vars", {}).items():
+            vars_["%s~%d" % (name, lbase)] = _remap(place, lmap, "", hook)
+        # upvars := the arguments the future was created with (at the creating call)
+        cb = blocks[root.bb]
+        for i, a in enumerate(root.args):
+            cb["st"].append({"k": "=", "p": [ubase + i, []], "r": ["use", ["c", a[1]] if a[0] in ("c", "m") else copy.deepcopy(a)], "sp": cb["t"].get("sp"), "inl": thin.key})
+        dest, target = t["dest"], t.get("target")
+        unwind_to = t.get("unwind") if isinstance(t.get("unwind"), int) else None
+        bmap = lambda x, bbase=bbase: x + bbase
+        for sb in body.rec["blocks"]:
+            nb = {"cleanup": sb["cleanup"], "st": _remap(sb["st"], lmap, prefix, hook), "t": _retarget(_remap(sb["t"], lmap, prefix, hook), bmap, unwind_to)}
+            tt = nb["t"]
+            if tt["k"] == "return":
+                if target is None:
+                    nb["t"] = {"k": "unreachable", "sp": tt.get("sp")}
+                else:
+                    nb["st"].append({"k": "=", "p": copy.deepcopy(dest), "r": ["agg", {"k": "adt", "adt": "core::task::poll::Poll", "variant": "Ready", "vi": 0, "fields": ["0"]}, [["m", [lmap(0), []]]]], "sp": t.get("sp"), "inl": thin.key})
+                    nb["t"] = {"k": "goto", "target": target, "sp": tt.get("sp")}
+            elif tt["k"] == "resume" and unwind_to is not None:
+                nb["t"] = {"k": "goto", "target": unwind_to, "sp": tt.get("sp")}
+            blocks.append(nb)
+        blocks[bi]["t"] = {"k": "goto", "target": bmap(0), "sp": t.get("sp"), "inlined": body.key}
+        inlined.append(body.key)
+    if not inlined:
+        return fn
+    rec["blocks"] = blocks
+    rec["locals"] = locals_
+    rec["vars"] = vars_
+    rec["inlined"] = list(fn.rec.get("inlined", [])) + inlined
+    return Fn(rec)
